@@ -96,6 +96,29 @@ CLAIMED = {
                   "distinct-in => distinct-out and the declared-length contracts with unbounded symbolic declared lengths.",
              note="Assumed: HMAC and the hashes are deterministic collision-free functions of (algorithm, key, message); their bit "
                   "patterns are outside the claim (the native replay uses the real ones).", ref="3/C16"),
+ "C08": dict(cat="other", tech="bounded symbolic execution (CrossHair/z3) of the full chain SSEConfig..Search over solver-chosen configuration values",
+             text="For every scheme every single numeric field and every pair of length fields the schemes tie together take "
+                  "solver-chosen values from the property's grid (valid, boundary, 0, -1, non-integer), every primitive name is "
+                  "varied and every field is deleted; on every path either an exception left the chain or all searches (stored "
+                  "and absent keyword) are correct, and a missing required parameter raises inside SSEConfig.",
+             note=_PIPE_NOTE + " Databases are built to be valid for each configuration (identifier size, keyword-length limit, "
+                  "SSE-1 capacity N+1 < s, SSE-2 file count).", ref="3/C08"),
+ "C10": dict(cat="model_checking", tech="one-step induction + depth-3/4 BMC by symbolic execution (CrossHair/z3) of the real server Service and dispatcher over a file-system model",
+             text="From every reachable persistent state (state x accepted configuration x accepted index x clean/abrupt end of "
+                  "the previous connection) one solver-chosen protocol message (type incl. unknown/missing, sid incl. "
+                  "foreign/missing, payload) goes through the real _recv_message; replies, the error that ends the dispatcher, "
+                  "every file and the state told to the next connection must match the 3-state reference model; searches must be "
+                  "answered from the accepted index with the token digest echoed. Event sequences cross-check reachability.",
+             note="Trusted: env/memfs.py (POSIX semantics of the six file operations used), env/aio.py cooperative runtime, fake "
+                  "websocket; real PiBas + real HMAC/AES on concrete fixtures. The websockets library is outside.", ref="3/C10"),
+ "C11": dict(cat="model_checking", tech="one-step induction by symbolic execution (CrossHair/z3) of the real client Service against the real server over an in-memory transport; flag helpers by SMT (BVX)",
+             text="From each of nine reachable workflow prefixes (every operation run by a client object freshly loaded from the "
+                  "file-system model) one solver-chosen operation is invoked against the real server classes; acceptance, the five "
+                  "persisted flags, the bytes of every client file (the key in particular), creation with invalid configurations, "
+                  "and - after completing the workflow - the delivered search results must match the reference model. The flag "
+                  "helpers are proved independent for all 64-bit state words by BVX.",
+             note="Trusted: env/memfs.py, env/aio.py, in-memory websocket pair wired to frontend.server.connector.handler (closes "
+                  "the connection when the handler ends, as the websockets library does).", ref="3/C11"),
 }
 
 NOT_APPLICABLE = {
